@@ -227,6 +227,12 @@ def mk_any(coll, body):
     """EXISTS x in coll: body.   `any(x == a for x in C)` (also `x is a or x == a`) is membership `a in C`."""
     if body == FALSE:
         return FALSE
+    if isinstance(coll, tuple) and coll and coll[0] == 'list' and 0 < len(coll[1]) <= 4:
+        # a literal collection: the disjunction over its elements
+        lv = _max_v(body)
+        if lv >= 0:
+            v = ('v', lv)
+            return mk_or(*[lift_ite(_truthy(simp(_subst(body, v, el)))) for el in coll[1]])
     if isinstance(body, tuple) and body and body[0] == 'eq':
         lv = _max_v(body)
         if lv >= 0:
@@ -410,6 +416,8 @@ class Extractor:
             return self.call(e, p, bound)
         if isinstance(e, (ast.List, ast.Tuple)):
             return ('list', tuple(self.expr(x, p, bound) for x in e.elts))
+        if isinstance(e, ast.Set):
+            return ('set', tuple(sorted((canon(self.expr(x, p, bound)) for x in e.elts), key=repr)))
         if isinstance(e, ast.Dict):
             items = []
             for k, v in zip(e.keys, e.values):
